@@ -26,12 +26,12 @@ def generate(seed, tier):
 
         return eworld.gen_env_case(rng, PROP, big=big, rewards_focus=True)
     spec = gen_instance(rng, huge=0.05, sparse_ids=0.03, large=0.008, max_jobs=6 if big else 4, max_machines=5 if big else 4, max_ops=6 if big else 4)
-    names, style = gen_filter(rng, None, p_none=0.5)
+    names, style = gen_filter(rng, None, p_none=0.5, user=0.15)
     obs = [{"t": "makespan_reward"}, {"t": "idle_reward"}]
     if rng.random() < 0.5:
         obs.reverse()
     faulty = rng.random() < 0.5
-    ops = gen_dispatch_ops(rng, n_ops(spec), p_query=0.05, p_invalid=0.1 if faulty else 0.0, p_reset=0.05 if faulty else 0.0,
+    ops = gen_dispatch_ops(rng, n_ops(spec), p_fork=0.03 if rng.random() < 0.3 else 0.0, p_query=0.05, p_invalid=0.1 if faulty else 0.0, p_reset=0.05 if faulty else 0.0,
                            episodes=2 if rng.random() < 0.2 else 1)
     cfg = {"instance": spec, "filter": names, "filter_style": style, "observers": obs, "observers_fixed": True}
     if rng.random() < 0.15:
@@ -54,9 +54,12 @@ def check_rewards(w, ctx, mk, idle, when):
 
 class H(Hooks):
     def __init__(self, w):
+        self.on_fork(w)
+        self.prev_mk = 0
+
+    def on_fork(self, w):
         self.mk = next((o for s, o in w.observers if s["t"] == "makespan_reward"), None)
         self.idle = next((o for s, o in w.observers if s["t"] == "idle_reward"), None)
-        self.prev_mk = 0
 
     def after(self, w, i, kind, info):
         ctx = w.ctx
@@ -104,7 +107,10 @@ def execute(case, ctx):
                 orig(wx, i, kind, info)
 
         h.after = after
-        run_ops(w, list(case["ops"]) + [["reset"]] + [o for o in case["ops"] if o[0] == "dispatch"], h)
+        ops = list(case["ops"]) + [["reset"]] + [o for o in case["ops"] if o[0] == "dispatch"]
+        if cfg["late_after"] % 2:
+            ops = [["reset"]] + ops  # reset right after attaching, before anything else happens
+        run_ops(w, ops, h)
         return
     w = DWorld(cfg, ctx)
     run_ops(w, case["ops"], H(w))
